@@ -41,8 +41,8 @@ func init() {
 		Run: runC19,
 	})
 	mutant(&Mutant{Name: "c20-truncate-before-backup", Property: "C20", File: "cmd/minify/main.go",
-		Old: "\t\t\t\tif err != nil {\n\t\t\t\t\tError.Println(err)\n\t\t\t\t\treturn false\n\t\t\t\t}\n\t\t\t\tbreak\n\t\t\t}\n\t\t}\n\t}\n",
-		New: "\t\t\t\tif err != nil {\n\t\t\t\t\tError.Println(err)\n\t\t\t\t}\n\t\t\t\tbreak\n\t\t\t}\n\t\t}\n\t}\n",
+		Old:  "\t\t\t\tif err != nil {\n\t\t\t\t\tError.Println(err)\n\t\t\t\t\treturn false\n\t\t\t\t}\n\t\t\t\tbreak\n\t\t\t}\n\t\t}\n\t}\n",
+		New:  "\t\t\t\tif err != nil {\n\t\t\t\t\tError.Println(err)\n\t\t\t\t}\n\t\t\t\tbreak\n\t\t\t}\n\t\t}\n\t}\n",
 		Rule: "R20.1", Construct: "backup rename"})
 	mutant(&Mutant{Name: "c20-output-opened-first", Property: "C20", File: "cmd/minify/main.go",
 		Old: "\tvar err error\n\tvar fr io.ReadCloser\n\tvar fw io.WriteCloser\n\tif len(srcs) == 1 {", New: "\tvar err error\n\tvar fr io.ReadCloser\n\tvar fw io.WriteCloser\n\tfw, _ = openOutputFile(t.dst)\n\tif len(srcs) == 1 {",
@@ -143,12 +143,11 @@ func runC20(c *Ctx) {
 	c.r203(x)
 	c.r204()
 	c.r205(x, "R20.5")
-	c.r206(x)
+	c.r206(x, "R20.6")
 }
 
 // R20.6: the overwrite detection identifies files the way the truncating open resolves them.
-func (c *Ctx) r206(x *cliCtx) {
-	const rule = "R20.6"
+func (c *Ctx) r206(x *cliCtx, rule string) {
 	c.R.Rule(rule, "openOutputFile opens its path with os.OpenFile, which follows symbolic links; the overwrite detection must therefore identify files after following links too: in cmd/minify.SameFile both os.FileInfo values handed to os.SameFile are results of os.Stat / (*os.File).Stat on the two parameters (os.Lstat only on the result of filepath.EvalSymlinks). With an identity test that does not follow links, `minify -o link.js real.js` (link.js → real.js) is not recognised as overwriting and the only copy is truncated without a backup")
 	pk, info := x.pk, x.info
 	fd := c.fn(rule, pk, "SameFile")
@@ -867,6 +866,7 @@ func runC19(c *Ctx) {
 	c.r194(x)
 	c.r205(x, "R19.5")
 	c.r196(x)
+	c.r206(x, "R19.7")
 }
 
 // R19.6: a failed write of the destination is a failure of the task.
